@@ -92,6 +92,13 @@ fn run_spec<S: Clone + std::fmt::Debug>(ctx: &mut Ctx, sp: &Spec<S>, nhist: usiz
                 if pos < len { apply(&mut s2, &hist[pos..pos + 1]); }
                 if !(sp.eq)(&keep, &c) { ctx.oracle_fail("changing the source changed a clone", info()); }
             }
+            // clone_from into a statement that already holds something else (the rest of the history): afterwards it is the source
+            {
+                let mut d = (sp.mk)();
+                apply(&mut d, &hist[pos..]);
+                d.clone_from(&st);
+                if !(sp.eq)(&d, &st) || (sp.render)(&d) != (sp.render)(&st) { ctx.oracle_fail("clone_from does not make the destination equal to / render like its source", { let mut v = info(); v["destination"] = serde_json::json!((sp.render)(&d)); v["source"] = serde_json::json!((sp.render)(&st)); v }); }
+            }
             // take
             if let Some(take) = sp.take {
                 let mut st2 = st.clone();
@@ -128,7 +135,9 @@ pub fn run(ctx: &mut Ctx) {
         clearers: vec![("clear_selects", "selects", |s| { s.clear_selects(); }), ("from_clear", "from", |s| { s.from_clear(); }), ("reset_limit", "limit", |s| { s.reset_limit(); }), ("reset_offset", "offset", |s| { s.reset_offset(); }), ("clear_order_by", "orders", |s| { s.clear_order_by(); })] }, n);
     run_spec(ctx, &Spec::<WindowStatement> { name: "WindowStatement", mk: WindowStatement::new, calls: vec![
             ("partition_by", |s, _| { s.add_partition_by(Expr::col(a("p")).into()); }), ("order_by", |s, k| { s.order_by(a("o"), if k % 2 == 0 { Order::Asc } else { Order::Desc }); }),
-            ("frame", |s, k| { s.frame_start(FrameType::Rows, Frame::Preceding((k % 3) as u32)); })],
+            ("frame", |s, k| { match k % 6 { 0 | 1 => { s.frame_start(FrameType::Rows, Frame::Preceding((k % 3) as u32)); } 2 => { s.frame_start(FrameType::Range, Frame::Preceding(1 + (k % 4) as u32)); }
+                3 => { s.frame_between(FrameType::Range, Frame::CurrentRow, Frame::Following(1 + (k % 5) as u32)); } 4 => { s.frame_between(FrameType::Range, Frame::UnboundedPreceding, Frame::CurrentRow); }
+                _ => { s.frame_between(FrameType::Rows, Frame::Preceding(2), Frame::UnboundedFollowing); } } })],
         take: Some(|s| s.take()), eq: |x, y| x == y, render: |w| { let q = Query::select().expr_window(Expr::col(a("c")), w.clone()).to_owned(); render_q(&q) }, left_is_new: true,
         clearers: vec![("clear_order_by", "order_by", |s| { s.clear_order_by(); })] }, n);
     run_spec(ctx, &Spec::<ColumnDef> { name: "ColumnDef", mk: || ColumnDef::new(a("c")), calls: vec![
